@@ -145,6 +145,19 @@ func byzOrchCatalogue(e common.Env) []ocase {
 		add(kind+" N=3 equivocate+reflect + outsider vouching", []uint16{1, 2, 3}, mp, sign, map[uint16]*byzPlan{1: {RouteVersion: map[uint8][]uint16{1: {2}, 2: {3}}, ReflectAcks: true}},
 			[]outsiderPlan{{ID: 9, Tap: 2, Victims: []uint16{2}}, {ID: 9, Tap: 3, Victims: []uint16{3}}}, []uint16{1}, map[uint16]int{1: 2}, e.Pick(2000, 20000), smp)
 	}
+	// the same adversaries in sessions with two rounds and point-to-point traffic (sampled only)
+	base := len(out)
+	for i := 0; i < base; i++ {
+		oc := out[i]
+		if oc.cfg.Silent || i%3 != 0 {
+			continue
+		}
+		oc.cfg.Name += " +2 rounds +p2p"
+		oc.cfg.Script.Rounds = []uint8{1, 2}
+		oc.cfg.Script.P2P = true
+		oc.limit, oc.samples = 0, smp
+		out = append(out, oc)
+	}
 	// key generation with a threshold below n-1: every party takes part, so a broadcast still needs the vouchers of all the others
 	lowT := func(name string, ids []uint16, t int, byz map[uint16]*byzPlan, limit, samples int) {
 		add(name, ids, nil, false, byz, nil, []uint16{1}, map[uint16]int{1: 2}, limit, samples)
